@@ -33,6 +33,7 @@ pub fn bursts() -> Vec<Burst> {
         prelude: prelude.into_iter().map(|(a, b)| (a, b.to_string())).collect(),
         lines: lines.into_iter().map(|(a, b)| (a, b.into_iter().map(|x| x.to_string()).collect())).collect(),
         max_schedules: 3_000_000,
+        reduce: true,
     };
     let wit = || vec![(0usize, s("wit"), s("wu"))];
     // simultaneous claims to one nickname
@@ -49,6 +50,7 @@ pub fn bursts() -> Vec<Burst> {
         prelude: vec![(0, s("PASS good")), (0, s("NICK wit")), (0, s("USER wu 0 * :r")), (1, s("PASS good")), (2, s("PASS good")), (1, s("USER u1 0 * :r")), (2, s("USER u2 0 * :r"))],
         lines: vec![(1, vec![s("NICK x")]), (2, vec![s("NICK x")])],
         max_schedules: 3_000_000,
+        reduce: true,
     });
     v.push(mk("reg-race-3", base_cfg(), 4, wit(), vec![1, 2, 3], vec![(1, "USER u1 0 * :r"), (2, "USER u2 0 * :r"), (3, "USER u3 0 * :r")], vec![(1, vec!["NICK x"]), (2, vec!["NICK x"]), (3, vec!["NICK x"])]));
     // a registered user's NICK against a completing registration
@@ -90,6 +92,32 @@ fn run_burst(b: Burst, bound: Option<usize>) -> PartResult {
     let name = format!("int:{}", b.name);
     let mut r = PartResult::new(&name, "E-INT");
     let out = explore(&b, bound, threads());
+    // self-check of the reduction: where the unreduced search is small enough it
+    // is run too and must produce exactly the same set of outcomes
+    let mut full_info = json!(null);
+    let total_cmds: usize = b.lines.iter().map(|x| x.1.len()).sum();
+    if b.reduce && total_cmds <= 4 {
+        let mut bf = b.clone();
+        bf.reduce = false;
+        bf.max_schedules = 300_000;
+        let full = explore(&bf, None, threads());
+        full_info = json!({"schedules": full.schedules, "complete": full.complete, "outcomes": full.outcomes.len()});
+        if full.complete && out.complete && full.outcomes != out.outcomes && full.violations.is_empty() && out.violations.is_empty() {
+            r.machinery = Some(format!("reduction self-check failed: reduced search saw {} outcomes, full search {}", out.outcomes.len(), full.outcomes.len()));
+        }
+        if !full.violations.is_empty() && out.violations.is_empty() {
+            // the full search is authoritative
+            for (kind, msg, sched, readable) in full.violations.iter().take(3) {
+                r.violations.push(Violation {
+                    scenario: format!("int:{}:full", b.name),
+                    sig: kind.clone(),
+                    detail: format!("burst {} (unreduced search): {}", b.name, msg),
+                    history: vec![],
+                    transcript: vec![json!({"burst": b.name, "schedule": sched, "steps": readable, "reduce": false}).to_string()],
+                });
+            }
+        }
+    }
     r.states = out.steps.max(1);
     r.transitions = out.steps.max(1);
     r.evaluations = out.schedules;
@@ -120,6 +148,8 @@ fn run_burst(b: Burst, bound: Option<usize>) -> PartResult {
         "sequential_outcomes": out.sequential,
         "preemption_bound": bound,
         "complete_within_bound": out.complete,
+        "partial_order_reduction": b.reduce,
+        "unreduced_self_check": full_info,
     });
     r.wall_s = t0.elapsed().as_secs_f64();
     r
@@ -139,6 +169,7 @@ fn self_test() -> PartResult {
         prelude: vec![],
         lines: vec![(0, vec![s("JOIN #b")])],
         max_schedules: 10,
+        reduce: false,
     };
     let rr = run_schedule(&b, &[], true);
     r.evaluations = 1;
@@ -165,10 +196,13 @@ fn self_test() -> PartResult {
 pub fn replay_fun(input: &Value) -> Vec<Finding> {
     let name = input["burst"].as_str().unwrap_or("");
     let sched: Vec<u16> = input["schedule"].as_array().map(|a| a.iter().filter_map(|x| x.as_u64().map(|v| v as u16)).collect()).unwrap_or_default();
-    let b = match bursts().into_iter().find(|b| b.name == name) {
+    let mut b = match bursts().into_iter().find(|b| b.name == name) {
         Some(b) => b,
         None => return vec![],
     };
+    if let Some(rf) = input["reduce"].as_bool() {
+        b.reduce = rf;
+    }
     let rr = run_schedule(&b, &sched, true);
     for l in &rr.readable {
         println!("  step {}", l);
@@ -199,7 +233,7 @@ pub fn plan(quick: bool) -> Plan {
         // preemption-bounded one (reported as such)
         let bound: Option<usize> = None;
         let mut b2 = b.clone();
-        b2.max_schedules = if quick { 60_000 } else { 6_000_000 };
+        b2.max_schedules = if quick { 400_000 } else { 6_000_000 };
         let name = format!("int:{}", b.name);
         parts.push(Part::Custom(name, Box::new(move || run_burst(b2, bound))));
     }
